@@ -225,8 +225,11 @@ func (w *World) RemoveRun() error {
 	// the removal runs in the background while ANOTHER wallet is the one in use: that
 	// selection must survive it ("every other wallet's ... ability to build and sign
 	// transactions are unchanged")
+	// (both situations occur in the explored space: at even chain heights the survivor is
+	// selected first, at odd heights the selection is left as the history made it - typically
+	// the wallet being removed, i.e. the survivor is NOT the selected one)
 	selected := w.I.W.CurrentWallet()
-	if A := w.Wallets["A"]; A != nil && (selected == "" || selected == w.Wallets["B"].ID) {
+	if A := w.Wallets["A"]; A != nil && w.N.Height()%2 == 0 && (selected == "" || selected == w.Wallets["B"].ID) {
 		if _, uerr := w.I.W.UseWallet(A.ID); uerr == nil {
 			selected = A.ID
 		}
